@@ -104,6 +104,21 @@ EXTRA = {
 }
 for k, v in EXTRA.items():
     CHECKS[k]["text"] += v
+# rounds 21-22
+EXTRA2 = {
+ "C04": " Rounds 21-22: results of N distinct objects with one object occurring twice (six shapes, N one by one from 60 to 140 and around 256 / 512 / 1024, to 4 097; thorough to 1 100 one by one), released the way the repository's tests do.",
+ "C05": " Rounds 21-22: values that contain themselves or each other (six shapes) under every operator in nine operand arrangements, every builtin, indexing, element assignment, rendering and as the result.",
+ "C06": " Rounds 21-22: what consumes the result of a fused form (13 consumers: branch and loop conditions, negation, && / ||, element, argument, store, return) for every type and 24 lattice integers x 4 literals x 13 operators.",
+ "C07": " Rounds 21-22: every slice program of at most 9 tokens written 130 (thorough also 1 100) times one after the other, plain and with op= / else-if sugar.",
+ "C08": " Rounds 21-22: every one of ~5 000 code points directly behind a backslash in a string literal (5 positions); literal forms of other languages (every ASCII letter and 24 prefixes glued to 6 string literals in 4 contexts, 14 digit runs continued by letters).",
+ "C09": " Rounds 21-22: a name declared twice with a function in between that uses the first, for all 3 x 3 ways of declaring it (variable, named function statement, variable holding a function literal).",
+ "C10": " Rounds 21-22: 36 pairs of different texts a shortcut could take for one (equal under x31 / x33 / sum / xor hashes, anagrams, equal ends, case, look-alikes, canonically equivalent) as two literals of one program, 8 programs each.",
+ "C14": " Rounds 21-22: long texts that are not numbers with a 2-, 3- or 4-byte character across every byte offset 1..140 and around 255 ... 4096 through every builtin; where U11 leaves the ANSWER open a crash is still a violation.",
+ "C15": " Rounds 21-22: every float pattern also against 25 neighbours (1-3 units in the last place, single mantissa bits, relative / absolute offsets 2^-52 .. 2^-40).",
+ "C17": " Rounds 21-22: 19 more deviation lines, one per kind of run-time failure at its own site in the machine (inside builtins with arguments pending, operators on heap values, index reads and writes, calls of non-functions and with the wrong arity, zero divisors, range overflow).",
+}
+for k, v in EXTRA2.items():
+    CHECKS[k]["text"] += v
 CHECKS["C02"]["note"] = CHECKS["C02"]["note"].replace("heights are explored exactly up to 96 slots above the frame base", "heights are explored exactly, at most 64 different heights per instruction")
 
 NOT_YET = {}
